@@ -1,20 +1,32 @@
 ------------------------------ MODULE T_X86Calib ------------------------------
-(* Calibration judge: X86Sem!Step(i, GenState(i, sd, k)) against the state the *)
-(* host processor produced from the same initial state (esp excluded; flags   *)
-(* and registers the SDM leaves undefined excluded).                          *)
-(* Record: [id, i, sd, k, reg (8 x limbs), fl (record of 0/1)]                *)
+(* Calibration judge: X86Sem!Step against the state the host processor        *)
+(* produced from the same initial state (flags, registers and memory the SDM  *)
+(* leaves undefined excluded).                                                *)
+(* Record: [id, mode ("predict" | "compare"), i, s |-> [reg, fl, seed, over], *)
+(*          reg, fl (processor result), cmpesp (0/1),                         *)
+(*          base (limbs), win (bytes of the case's private memory window      *)
+(*          after execution; <<>> when the instance touches no memory)]       *)
+(* predict: reports only whether Step faults (such states are not executed).  *)
 EXTENDS X86SpaceLib, Json, IOUtils
 Recs == JsonDeserialize(IOEnv.TRACE)
 FlagAt(fl, f) == CASE f = 1 -> fl.cf [] f = 2 -> fl.pf [] f = 3 -> fl.af [] f = 4 -> fl.zf [] f = 5 -> fl.sf [] f = 6 -> fl.df [] f = 7 -> fl.of
 Verdict(rec) ==
-   LET s == GenState(rec.i, rec.sd, rec.k)
-       p == Step(rec.i, s)
-       badr == {r \in (1..8) \ {ESP} : r \notin p.ur /\ p.reg[r] # rec.reg[r]}
-       badf == {f \in 1..7 : FlagAt(p.fl, f) # U /\ FlagAt(p.fl, f) # FlagAt(rec.fl, f)} IN
+   LET s == [reg |-> rec.s.reg, fl |-> rec.s.fl, seed |-> rec.s.seed, over |-> rec.s.over, eip |-> Z4]
+       p == Step(rec.i, s) IN
+   IF rec.mode = "predict" THEN (IF p.fault = "" THEN <<>> ELSE <<[clause |-> "fault", fault |-> p.fault]>>)
+   ELSE
+   LET badr == {r \in 1..8 : (r # ESP \/ rec.cmpesp = 1) /\ r \notin p.ur /\ p.reg[r] # rec.reg[r]}
+       badf == {f \in 1..7 : FlagAt(p.fl, f) # U /\ FlagAt(p.fl, f) # FlagAt(rec.fl, f)}
+       n == Len(rec.win)
+       addr(j) == Add(rec.base, Const(j - 1), 32)
+       \* every byte of the window: written by the spec -> that value, otherwise the initial content
+       badm == IF p.um THEN {} ELSE {j \in 1..n : rec.win[j] # PostByte(p.wr, s, addr(j))}
+       stray == {a \in WrAddrs(p.wr) : n > 0 /\ ~Ult(Sub(a, rec.base, 32), Const(n))} IN
    IF p.fault # "" THEN <<[clause |-> "calib.fault", fault |-> p.fault]>>
-   ELSE IF badr = {} /\ badf = {} THEN <<>>
+   ELSE IF badr = {} /\ badf = {} /\ badm = {} /\ stray = {} THEN <<>>
    ELSE <<[clause |-> "calib.mismatch", regs |-> {RegNames[r] : r \in badr}, flags |-> {FlagNames[f] : f \in badf},
-           state |-> [reg |-> s.reg, fl |-> s.fl], spec |-> [reg |-> p.reg, fl |-> p.fl], cpu |-> [reg |-> rec.reg, fl |-> rec.fl]]>>
+           mem |-> {<<j - 1, rec.win[j], PostByte(p.wr, s, addr(j))>> : j \in badm}, stray |-> stray,
+           spec |-> [reg |-> p.reg, fl |-> p.fl, wr |-> p.wr], cpu |-> [reg |-> rec.reg, fl |-> rec.fl]]>>
 VARIABLE i
 Init == i = 0
 Next == \/ /\ i < Len(Recs) /\ i' = i + 1
